@@ -1241,7 +1241,7 @@ struct Budget {
 fn budget(tier: Tier) -> Budget {
     match tier {
         Tier::Quick => Budget { runs: driver::scale(16000) },
-        Tier::Thorough => Budget { runs: driver::scale(800000) },
+        Tier::Thorough => Budget { runs: driver::scale(2400000) },
     }
 }
 
